@@ -51,7 +51,7 @@ def run(rep, tier):
     rep.trusted += ['Coq 8.16.1 kernel', 'extraction + runner/main.ml', 'vlib/stimtext.py', 'harness/c04.cc',
                     'decoders executed from doc/result_formats.md']
     rng = rep.rng()
-    N = 200 if quick else 6000
+    N = 3000 if quick else 20000
     cases = []
     spec_in = []
     for _ in range(N):
